@@ -272,7 +272,7 @@ class Gen(object):
         mode = self.modes[mi]
         kind = weighted(
             rng,
-            [("valid", 4), ("pvalid", 4), ("trunc", 3), ("pfxonly", 1.5), ("random", 1.5), ("repeat", 2), ("strip", 1.5), ("addpfx", 1.5), ("empty", 0.2)],
+            [("valid", 4), ("pvalid", 4), ("trunc", 3), ("pfxonly", 1.5), ("random", 1.5), ("repeat", 2), ("strip", 1.5), ("addpfx", 1.5), ("pfxrun", 0.8), ("empty", 0.2)],
         )
         note = None
         if kind == "valid":
@@ -290,6 +290,22 @@ class Gen(object):
             b = bytes(rng.randrange(256) for _ in range(rng.randint(1, self.d.maxlen + 2)))
         elif kind == "repeat" and self.recent:
             b = bytes.fromhex(rng.choice(self.recent))
+        elif kind == "pfxrun":
+            # a run of prefix bytes around the decoder's limits (longest instruction, fetch
+            # window) and, rarely, around the interpreter's recursion limit
+            one = None
+            if self.is_x86:
+                one = [bytes([c]) for c in self.I.X86_PREFIXES]
+            else:
+                P = self.pfx_specs[mi if mi < len(self.pfx_specs) else 0]
+                if P:
+                    one = [self.I.encode(p, rng, endian=1) for p in P]
+            if one:
+                n = rng.choice([self.d.maxlen - 1, self.d.maxlen, self.d.maxlen + 1, 2 * self.d.maxlen, 40] + ([1200, 3500] if rng.random() < 0.15 else []))
+                run = b"".join(rng.choice(one) if rng.random() < 0.5 else one[0] for _ in range(max(1, n)))
+                b = run + (self.valid(rng, mi) if rng.random() < 0.8 else b"")
+            else:
+                b = self.valid(rng, mi)
         elif kind == "strip" and self.recent:
             # the tail of a recent input without its leading byte(s): what the decoder
             # saw after consuming a prefix
@@ -316,7 +332,8 @@ class Gen(object):
                 "nth": rng.choice([0, 0, 1, 1, 2, 3]),
                 "exc": rng.choice(["SimFault", "SimFault", "MemoryError"]),
             }
-        self.recent.append(op["bytes"])
+        if len(op["bytes"]) < 200:
+            self.recent.append(op["bytes"])
         if len(self.recent) > 12:
             self.recent.pop(0)
         return op
